@@ -31,6 +31,27 @@ SCOPE = _scope.SCOPE
 CONCURRENT = 'usim._primitives.concurrent_exception.Concurrent'
 
 
+def check_own_exception_wins(check, an: Analysis, rule: str, foreign):
+    """an exception of the body that is not the scope's own signal leaves the scope as
+    itself: never swallowed, never replaced by the concurrent failures of children"""
+    for recv in _scope.scope_receivers(an):
+        aexit = an.callee(recv, '__aexit__')
+        label = recv.rsplit('.', 1)[-1]
+        for cls in foreign:
+            summ = an.it.summary(aexit, 'exc:' + cls)
+            bad = None
+            for path in summ.paths:
+                if path.kind == 'raise' and path.outcome[1].cls == CONCURRENT and \
+                        not _raise_is_privileged(path):
+                    bad = path
+            check.instance(rule, '__aexit__[%s]{%s}:own-exception-wins' % (
+                label, cls.rsplit('.', 1)[-1].replace('ext:', '')),
+                summ.ret_truth == 'never' and bad is None, where_fn(aexit.fn),
+                'a body exception of this class is never swallowed (%s) and never replaced '
+                'by the concurrent failures' % summ.ret_truth,
+                path=rules.path_lines(bad) if bad else None, analysed=len(summ.paths))
+
+
 def run(check, an: Analysis):
     check.rule('H', 'wrapper: per exception class of the payload await, failed=True iff it '
                     'is neither CancelTask nor GeneratorExit; the stored error is the caught '
@@ -129,22 +150,10 @@ def run(check, an: Analysis):
            _scope.ENV_SCOPE: [CANCEL_SCOPE, 'usim.py.exceptions.StopSimulation']}
     foreign = ['ext:Exception', 'ext:KeyError', CORE_INTERRUPT, CANCEL_TASK,
                'usim._basics.streams.StreamClosed', CONCURRENT]
+    check_own_exception_wins(check, an, 'E', foreign)
     for recv in _scope.scope_receivers(an):
         aexit = an.callee(recv, '__aexit__')
         label = recv.rsplit('.', 1)[-1]
-        for cls in foreign:
-            summ = an.it.summary(aexit, 'exc:' + cls)
-            bad = None
-            for path in summ.paths:
-                if path.kind == 'raise' and path.outcome[1].cls == CONCURRENT and \
-                        not _raise_is_privileged(path):
-                    bad = path
-            check.instance('E', '__aexit__[%s]{%s}:own-exception-wins' % (
-                label, cls.rsplit('.', 1)[-1].replace('ext:', '')),
-                summ.ret_truth == 'never' and bad is None, where_fn(aexit.fn),
-                'a body exception of this class is never swallowed (%s) and never replaced '
-                'by the concurrent failures' % summ.ret_truth,
-                path=rules.path_lines(bad) if bad else None, analysed=len(summ.paths))
         for cls in own.get(recv, [CANCEL_SCOPE]):
             summ = an.it.summary(aexit, 'exc:' + cls)
             can_swallow = summ.ret_truth in ('may', 'always')
@@ -199,6 +208,8 @@ def run(check, an: Analysis):
                            where_fn(finished.fn), 'a failing child cancels its scope',
                            path=rules.path_lines(path))
     _scope.check_child_failure_recorded(check, an, 'Q')
+    # a block ends once: leaving it withdraws the abort signal that may still be queued
+    _scope.check_disable_interrupts(check, an, 'Q')
     # the first failure aborts *all* remaining children, on every way out of the block
     from . import c04
     c04.check_copy_iteration(check, an, 'Q')
